@@ -17,10 +17,14 @@ import (
 	"fmt"
 	"io"
 	"math"
+	"net"
 	"strconv"
+	"strings"
+	"time"
 
 	"github.com/mgtv-tech/redis-GunYu/config"
 	"github.com/mgtv-tech/redis-GunYu/pkg/redis/client"
+	cluster "github.com/mgtv-tech/redis-GunYu/pkg/redis/client/cluster"
 	"github.com/mgtv-tech/redis-GunYu/pkg/redis/client/proto"
 	usync "github.com/mgtv-tech/redis-GunYu/pkg/sync"
 	"github.com/mgtv-tech/redis-GunYu/verifshim/mc"
@@ -239,7 +243,126 @@ func c12EncodeTyped(wsize int) *c12Fail {
 	return nil
 }
 
+// ---------------------------------------------------------------------------
+// the cluster connection's own RESP writer (pkg/redis/client/cluster/conn.go): a third
+// encoder of the same wire format, used for every send to a cluster target
+
+// c12Sink is an in-memory net.Conn that keeps what is written to it.
+type c12Sink struct{ buf bytes.Buffer }
+
+func (s *c12Sink) Read(p []byte) (int, error)         { return 0, io.EOF }
+func (s *c12Sink) Write(p []byte) (int, error)        { return s.buf.Write(p) }
+func (s *c12Sink) Close() error                       { return nil }
+func (s *c12Sink) LocalAddr() net.Addr                { return &net.TCPAddr{} }
+func (s *c12Sink) RemoteAddr() net.Addr               { return &net.TCPAddr{} }
+func (s *c12Sink) SetDeadline(t time.Time) error      { return nil }
+func (s *c12Sink) SetReadDeadline(t time.Time) error  { return nil }
+func (s *c12Sink) SetWriteDeadline(t time.Time) error { return nil }
+
+// c12EncodeCluster: redisConn.send exactly as the cluster batchers call it (command name
+// as string, arguments as []byte), all commands through ONE connection, then flush.
+func c12EncodeCluster(cmds []c12Cmd, wsize, rsize int) *c12Fail {
+	sink := &c12Sink{}
+	conn := cluster.VerifNewConn(sink, wsize)
+	for _, c := range cmds {
+		ia := make([]interface{}, 0, len(c.args))
+		for _, a := range c.args {
+			ia = append(ia, a)
+		}
+		if err := conn.Send(strings.ToLower(c.name), ia...); err != nil {
+			return &c12Fail{"cluster connection send fails", "error", map[string]interface{}{"err": err.Error()}}
+		}
+	}
+	if err := conn.Flush(); err != nil {
+		return &c12Fail{"flush fails", "error", map[string]interface{}{"err": err.Error()}}
+	}
+	return c12CheckEncoded(sink.buf.Bytes(), cmds, true, rsize)
+}
+
+// c12ClusterTyped: the typed arguments the cluster writer accepts (int8/32/int/int64,
+// uint8/32/uint/uint64, float64, string, []byte); a type it does not accept must be refused
+// with an error, never written in some other form.
+func c12ClusterTyped(wsize int) *c12Fail {
+	sink := &c12Sink{}
+	conn := cluster.VerifNewConn(sink, wsize)
+	offs := []int64{1<<32 + 7 + 1234, 0}
+	var wants [][]c12Typed
+	for _, off := range offs {
+		var ta []c12Typed
+		for _, t := range c12TypedArgs(off) {
+			switch t.v.(type) {
+			case int8, int32, int, int64, uint8, uint32, uint, uint64, float64, string, []byte:
+				ta = append(ta, t)
+			}
+		}
+		ta = append(ta, c12Typed{int64(-9), "-9"}, c12Typed{"", ""}, c12Typed{[]byte{}, ""}, c12Typed{strings.Repeat("x", 10), strings.Repeat("x", 10)}, c12Typed{int64(100), "100"})
+		wants = append(wants, ta)
+		ia := make([]interface{}, 0, len(ta))
+		for _, t := range ta {
+			ia = append(ia, t.v)
+		}
+		if err := conn.Send("hset", ia...); err != nil {
+			return &c12Fail{"cluster connection send fails on a supported argument type", "error", map[string]interface{}{"err": err.Error()}}
+		}
+	}
+	if err := conn.Flush(); err != nil {
+		return &c12Fail{"flush fails", "error", map[string]interface{}{"err": err.Error()}}
+	}
+	enc := sink.buf.Bytes()
+	pos := 0
+	for ci, ta := range wants {
+		parts, n, err := refParse(enc[pos:])
+		if err != nil {
+			return &c12Fail{"encoded command is not a well-formed multi-bulk command", "malformed", map[string]interface{}{"command_index": ci, "err": err.Error(), "bytes": q(enc[pos:])}}
+		}
+		pos += n
+		if len(parts) != len(ta)+1 || string(parts[0]) != "hset" {
+			return &c12Fail{"encoded command has a different name or argument count", "args", map[string]interface{}{"command_index": ci, "got_parts": len(parts)}}
+		}
+		for j, t := range ta {
+			got := string(parts[j+1])
+			bad := false
+			switch v := t.v.(type) {
+			case float64:
+				f, err := strconv.ParseFloat(got, 64)
+				bad = err != nil || f != v
+			case []byte:
+				bad = got != string(v)
+			default:
+				bad = got != t.want
+			}
+			if bad {
+				return &c12Fail{"typed argument is not encoded as its decimal text", "typed-arg",
+					map[string]interface{}{"command_index": ci, "arg_index": j, "go_value": fmt.Sprintf("%T(%v)", t.v, t.v), "encoded": fmt.Sprintf("%q", got), "want": t.want}}
+			}
+		}
+	}
+	if pos != len(enc) {
+		return &c12Fail{"encoder wrote bytes beyond the commands", "malformed", map[string]interface{}{"extra": q(enc[pos:])}}
+	}
+	// unsupported types: an error, or nothing wrong on the wire
+	for _, v := range []interface{}{nil, true, int16(5), float32(1.5), uint16(7), time.Second} {
+		s2 := &c12Sink{}
+		c2 := cluster.VerifNewConn(s2, wsize)
+		err := c2.Send("set", "k", v)
+		c2.Flush()
+		if err == nil {
+			if _, n, perr := refParse(s2.buf.Bytes()); perr != nil || n != s2.buf.Len() {
+				return &c12Fail{"an argument type the writer does not support is neither refused nor written as a well-formed command", "malformed", map[string]interface{}{"go_value": fmt.Sprintf("%T(%v)", v, v), "bytes": q(s2.buf.Bytes())}}
+			}
+		}
+	}
+	return nil
+}
+
 func c12RunTyped(s c12Scn) mc.Result {
+	if s.Fam == "typed-cluster" {
+		if f := c12Guard(func() *c12Fail { return c12ClusterTyped(s.Buf) }); f != nil {
+			f.detail["stream_shape"] = "typed"
+			return mc.Violation(f.clause, "C12:encode-cluster:"+f.kind+":typed", f.detail)
+		}
+		return mc.OK(mc.Hash("encode-typed-cluster", strconv.Itoa(s.Buf)), true, 1)
+	}
 	if f := c12Guard(func() *c12Fail { return c12EncodeTyped(s.Buf) }); f != nil {
 		f.detail["stream_shape"] = "typed"
 		return mc.Violation(f.clause, "C12:encode-typed:"+f.kind, f.detail)
@@ -387,6 +510,10 @@ func c12RunBoundaries(rep *mc.Reporter, mine func() bool, thorough bool, decoder
 		rep.Scenario()
 		s.Path, s.Fam, s.Buf, s.RBuf, s.HB = path, "boundary", wsize, rsize, []int{0, 0}
 		rep.Exec(s, nil, c12RunEncode(s))
+		if path == "encode-writer" { // the cluster connection's writer gets the same inputs
+			s.Path = "encode-cluster"
+			rep.Exec(s, nil, c12RunEncode(s))
+		}
 	}
 	resume := func(s c12Scn) {
 		if !mine() {
@@ -459,6 +586,25 @@ func c12RunBoundaries(rep *mc.Reporter, mine func() bool, thorough bool, decoder
 			dec(c12Scn{BulkLen: l}, c12Reader{1 << 20, "pages"})
 			par(c12Scn{BulkLen: l}, 16, 0, 2)
 		}
+	}
+	// (4) decimal digits of lengths and counts (the cluster writer formats them itself): argument
+	// lengths and element counts next to the powers of ten, through all three encoders
+	for _, p := range []int{10, 100, 1000, 10000, 100000, 1000000} {
+		for _, l := range []int{p - 1, p, p + 1} {
+			enc(c12Scn{BulkLen: l}, "encode-resp", 4096, 32)
+			enc(c12Scn{BulkLen: l}, "encode-writer", 4096, 32)
+		}
+		if p <= 10000 || thorough {
+			for _, e := range []int{p - 1, p, p + 1, p + 2} {
+				enc(c12Scn{Count: e}, "encode-resp", 4096, 32)
+				enc(c12Scn{Count: e}, "encode-writer", 4096, 32)
+				dec(c12Scn{Count: e}, c12Reader{4096, "whole"})
+			}
+		}
+	}
+	for _, e := range []int{1, 2, 3} { // a command of its name alone, one and two arguments
+		enc(c12Scn{Count: e}, "encode-resp", 16, 32)
+		enc(c12Scn{Count: e}, "encode-writer", 16, 32)
 	}
 	// (3) the connection's buffer sizes: writer 1 MiB, reply reader 512 KiB, stream reader 64 KiB;
 	// the argument (plus the few header bytes before it) ends just below, at and above each of them
